@@ -1,6 +1,6 @@
 (* C10 — channel ids: unique among open channels, within 1..=channel_max, reusable.
    This file only pins statements. *)
-From Amq Require Import Lib.Base Model.Slots Spec.Slots Proofs.Slots.
+From Amq Require Import Lib.Base Gen.Consts Model.Slots Spec.Slots Proofs.Slots Model.Tokens Proofs.Tokens.
 
 (* One step, from EVERY state satisfying the invariant (not only reachable ones): the
    result is one the abstract specification allows for the current set of open ids
@@ -39,6 +39,19 @@ Proof. exact allowed_no_panic. Qed.
 Theorem C10_counter : forall s, Inv s -> 1 <= next s /\ next s <= 65536.
 Proof. exact Inv_counter. Qed.
 
+(* An id is also a poll token (a channel's mailbox is registered under Token(id)): the wake-up of
+   EVERY event source - every channel id in 1..=65535, channel 0, the socket, the heartbeat timer,
+   the allocation queue, the set-blocked queue - is dispatched to the handler of that very source,
+   with the four constants as the compiled crate has them (Gen/Consts.v): no id makes a call hang
+   because its wake-up is taken for something else, none reaches the unreachable! arm. *)
+Theorem C10_token_dispatch : forall s, source_ok s -> dispatch_token (token_of s) = kind_of s.
+Proof. exact dispatch_own_source. Qed.
+
+(* ... and no two sources share a token *)
+Theorem C10_tokens_injective : forall s1 s2,
+  source_ok s1 -> source_ok s2 -> token_of s1 = token_of s2 -> s1 = s2.
+Proof. exact tokens_injective. Qed.
+
 (* non-vacuity: the witnesses of the three repaired defects run through the model *)
 Example C10_example :
   fst (run (new_slots 2) [OpenSome 0; OpenSome 2; Close 2; OpenNone; OpenNone; OpenNone]) =
@@ -60,9 +73,14 @@ Check C10_allowed_excludes : forall mx opn o r,
   r <> RPanic /\ r <> RFuel /\
   (forall id, r = ROk id -> in_range mx id /\ ~ In id opn).
 Check C10_counter : forall s, Inv s -> 1 <= next s /\ next s <= 65536.
+Check C10_token_dispatch : forall s, source_ok s -> dispatch_token (token_of s) = kind_of s.
+Check C10_tokens_injective : forall s1 s2,
+  source_ok s1 -> source_ok s2 -> token_of s1 = token_of s2 -> s1 = s2.
 
 Print Assumptions C10_step.
 Print Assumptions C10_run.
 Print Assumptions C10_allowed_excludes.
 Print Assumptions C10_counter.
+Print Assumptions C10_token_dispatch.
+Print Assumptions C10_tokens_injective.
 Print Assumptions C10_example.
